@@ -103,7 +103,29 @@ def parseEl : List String → Option El
   | ["streamerror"] => some (.streamError false)
   | ["redirect"] => some (.streamError true)
   | ["close"] => some .streamClose
+  | ["xel", _, "iqget-version"] => some (.xiq .getKnown)
+  | ["xel", _, "iqget-unknown"] => some (.xiq .getUnknown)
+  | ["xel", _, "iqset"] => some (.xiq .set)
+  | ["xel", _, "iqresult-pending"] => some (.xiq .resultPending)
+  | ["xel", _, "message"] => some .xstanza
+  | ["xel", _, "presence"] => some .xstanza
+  | ["smr"] => some .smR
+  | ["sma"] => some .smA
   | _ => none
+
+/-- split a token list at "+" -/
+def splitPlus : List String → List (List String)
+  | [] => [[]]
+  | "+" :: rest => [] :: splitPlus rest
+  | t :: rest =>
+    match splitPlus rest with
+    | [] => [[t]]
+    | g :: gs => (t :: g) :: gs
+
+/-- `<stream:error>…</stream:error></stream:stream>` in one segment: the close tag is only seen if the segment parses -/
+def errorThenClose (s : St) (seeOther : Bool) : List Ev :=
+  if s.conn = .connected ∧ s.wedged = false ∧ s.headerSeen = true then [.recv (.streamError seeOther), .closeTail]
+  else [.recv (.streamError seeOther)]
 
 /-- events of one harness op in state `s` (before the automatic `socketConnected`) -/
 def opEvents (s : St) : List String → Option (List Ev)
@@ -113,6 +135,12 @@ def opEvents (s : St) : List String → Option (List Ev)
       some ((if s.encrypted then [.socketError, .socketError] else [.socketError]) ++ [.socketDisconnected])
     else some []
   | ["sendiq"] => some [.sendIq]
+  | "seg" :: rest => ((splitPlus rest).mapM parseEl).map fun es => es.map Ev.recv   -- several elements in ONE read
+  | ["ws"] => some [.recvWhitespace]
+  | ["partial"] => some [.recvPartial]
+  | ["errclose"] => some (errorThenClose s false)
+  | ["redirectclose"] => some (errorThenClose s true)
+  | ["rst"] => if s.conn = .connected then some [.socketError, .socketDisconnected] else some []
   | toks => (parseEl toks).map fun e => [.recv e]
 
 /-- the loopback connect always succeeds -/
@@ -147,6 +175,7 @@ def showKind : Kind → String
   | .smEnable => "SmEnable"
   | .smResume => "SmResume"
   | .smReq => "SmReq"
+  | .smAck => "SmAck"
   | .iqReply e => if e then "IqReply:error" else "IqReply:result"
   | .iqRequest r => if r then "IqRequest:roster" else "IqRequest:other"
   | .presence => "Presence"
